@@ -167,7 +167,7 @@ def make_diagonal(D, offset=0, axis1=0, axis2=1, shape=None):
     # square); by default they are square.
     if shape is None:
         shape = D.shape + (D.shape[-1],)
-    new_array = _np.zeros(shape)
+    new_array = _np.zeros(shape, dtype=_np.result_type(D, float))
     new_array_diag = _np.diagonal(new_array, offset=0, axis1=-1, axis2=-2)
     new_array_diag.flags.writeable = True
     new_array_diag[:] = D
